@@ -11,7 +11,7 @@
 
 use crate::lex::{self, Tok};
 use crate::runner::*;
-use crate::sqlite::{Cell, Db};
+use crate::sqlite::Cell;
 use crate::util::*;
 use crate::with_backend;
 use proptest::prelude::*;
